@@ -303,15 +303,13 @@ class _:
         return same(self, old.self)
 
 
-@contract('bridge_env.playing_phase.PlayingHistory.history', props=P45)
+@contract('bridge_env.playing_phase.PlayingHistory.history', props=P45 + ['C12', 'C08'])
 class _:
-    returns = Seq(TrickElem)
     modifies = []
 
-    def ensures_copy_of_the_tricks(self, result):
-        return conj(seq_len(result) == seq_len(self._history),
-                    forall_int(0, seq_len(result),
-                               lambda j: seq_get(result, j) == seq_get(self._history, j)))
+    # an (immutable) copy of the recorded tricks, in order
+    def result(self):
+        return tuple(self._history)
 
 
 @contract('bridge_env.playing_phase.PlayingHistory.__getitem__', props=P45)
